@@ -342,6 +342,8 @@ static void caseC06(uint64_t idx, vh::Rng& g)
 		if (k == 0) { kind = "only-nullary"; int ns = g.range(1, 4); al.rank.assign(ns, 0); }
 		else { kind = "random"; al = gen::randAlpha(g, 2, 1, 4); }
 		int nst = g.range(1, static_cast<int>(R->param("S", 4)));
+		// complementation is exponential in the rank: automata over an alphabet with a symbol of rank >= 3 stay at <= 3 states
+		{ int maxr = 0; for (int r : al.rank) maxr = std::max(maxr, r); if (maxr >= 3) { nst = std::min(nst, 3); R->count("wide-alphabet(rank>=3)"); } }
 		// A uses only a subset of the registered symbols now and then
 		Alpha sub = al; if (g.chance(1, 3) && al.rank.size() > 1) { sub.rank[g.below(al.rank.size())] = -1; kind += "+unused-symbol"; }
 		bool anyLeaf = false; for (int r : sub.rank) if (r == 0) anyLeaf = true;
